@@ -38,3 +38,14 @@ claim("C13",
       "correspondence; the string-key contiguity test is modelled literally and compared with tuple contiguity on the generated domain.",
       "Rocq proof (fold over hierarchy levels) + checked correspondence + exhaustive key sequences",
       "DESIGN.md section 6 C13")
+claim("C10",
+      "Theorems (Coq): for every string of Unicode scalar values the reader decodes the escaper's token stream back to "
+      "the string (unbounded, induction + UTF-16 arithmetic by lia), every \\u parameter is in the signed 16-bit range with "
+      "one fallback character, and for all 65536 code units the lexer produces exactly those tokens between neighbouring "
+      "characters (finite, by computation). Against the implementation: the bytes of the file written by write_rtf are "
+      "decoded by the same Gallina reader (cp1252 for high bytes) and every probe string placed in every text-bearing "
+      "position must be read back; thorough tier sweeps all 1.1M scalar values as c, ac, cb, acb.",
+      "Lexer compositionality (lex (escape s) = tokens of the theorem) is validated by strict token correspondence, "
+      "not proved; RTF reader semantics (cp1252 under \\ansi, \\uc skipping) are my formalisation of RTF 1.9.",
+      "Rocq proof (induction over strings, lia; finite reflection over 65536 units) + byte-level differential check + exhaustive code-point sweep",
+      "DESIGN.md section 6 C10")
